@@ -3,7 +3,7 @@ import re
 from .model import *
 from .engine import AnchorLost
 from .facts import Site, op_place, Call
-from . import c05
+from . import c05, c03
 
 EXPLANATION = ("Containment: the future-flow analysis (K14) shows that no task root and no public future can poll a user callback outside a "
                "catch_unwind. Exactly-once reporting: terminal events are constructed only in the two spawned loop tasks and the guard's Drop; each "
@@ -24,6 +24,7 @@ DOC = {
  "C04.R6": "classification table of the exit event in both runtimes and in Drop (constants 'killed', 'actor_task_cancelled', notify_on_cancel gate)",
  "C04.R7": "mark_running only after pre_start Ok (and after the successful link, Send); ActorStarted only after post_start Ok and set_status(Running), once",
  "C04.R8": "supervision port writers: tree notification (targets originate from the actor's own supervisor/monitors fields), pg, pid registry",
+ "C04.R10": "= C03.R4: outcome table of the message step in both runtimes (signal -> killed result, handler Err -> Err exit, Stop/Drained -> graceful result): the classification of C04.R6 (`killed` / failed / terminated-with-reason) is fed by these per-branch outcomes, so a kill landing in a supervision handler must not be turned into a graceful stop",
  "C04.R9": "= C05.R5/R1: the supervisor slot an exit event is addressed to is cleared only by its owner (unlink identity test) and notify precedes unlink",
 }
 
@@ -419,9 +420,13 @@ def r9(run, db):
     c05.r1(run, db)
 
 
+def r10(run, db):
+    c03.r4(run, db)
+
+
 Q = ["dflt", "rc"]
 TH = ["dflt", "rc", "atr", "astd", "mon"]
-RULES = [{"id": "C04.R%d" % i, "fn": f, "quick": Q, "thorough": TH} for i, f in enumerate([r1, r2, r3, r4, r5, r6, r7, r8, r9], 1)]
+RULES = [{"id": "C04.R%d" % i, "fn": f, "quick": Q, "thorough": TH} for i, f in enumerate([r1, r2, r3, r4, r5, r6, r7, r8, r9, r10], 1)]
 from .positive import control
 RULES.append({"id": "C04.P", "fn": control('k14'), "quick": ["pos"], "thorough": ["pos"]})
 DOC["C04.P"] = 'positive control: planted tokio::spawn(actor.handle(..)) must be reported by the future-flow analysis as uncontained'
